@@ -41,11 +41,11 @@ def sel(pool, i):
     return pool[len(pool) - 1]
 
 
-def query_expr(style: int, nparams: int, split: int):
+def query_expr(style: int, nparams: int, split: int, first: str = "name"):
     """The query expression.  style: 0 `+` concatenation, 1 f-string, 2 printf `%`, 3 str.format;
     split: 0 every literal piece in one literal where the style allows, 1 adjacent literals (implicit concatenation),
     2 literals joined with an explicit `+`."""
-    names = ["name", "phone", "other"][:nparams]
+    names = [first, "phone", "other"][:nparams]
     seps = [HEAD, MID, MID2][:nparams] + [TAIL]
     st = style % 4
     if st == 0:
@@ -76,12 +76,17 @@ def query_expr(style: int, nparams: int, split: int):
     return "%s.format(%s)" % (fmt, ", ".join(names))
 
 
-def build(style: int, nparams: int, split: int, scope: int, var: int):
+def build(style: int, nparams: int, split: int, scope: int, var: int, carry: int = 0):
     """scope: 0 module level, 1 inside a function; var: 0 the expression is the argument of execute, 1 it is first
     assigned to a variable.  The parameter values are read from VALS, which the oracle binds to each benign value
     tuple in turn (the rewrite does not depend on them)."""
-    q = query_expr(style, nparams, split)
+    q = query_expr(style, nparams, split, "who" if carry % 3 else "name")
     body = []
+    tail_expr = "rows"
+    if carry % 3:
+        # the injected value travels through an intermediate variable that is READ AGAIN after the query
+        body.append("who = name" if carry % 3 == 1 else "who = name + '!'")
+        tail_expr = "(rows, who)" if carry % 3 == 1 else "(rows, [who for _ in range(1)])"
     if var % 2 == 1:
         body += ["q = " + q, "cursor.execute(q)"]
     else:
@@ -89,9 +94,9 @@ def build(style: int, nparams: int, split: int, scope: int, var: int):
     body += ["rows = cursor.fetchall()"]
     bind = ["name = get(0)", "phone = get(1)", "other = get(2)"]
     if scope % 2 == 1:
-        src = PRELUDE + "\ndef lookup(cursor, name, phone, other):\n" + "".join("    %s\n" % l for l in body) + "    return rows\n\n" + "\n".join(bind) + "\nprint(lookup(cursor, name, phone, other))\n"
+        src = PRELUDE + "\ndef lookup(cursor, name, phone, other):\n" + "".join("    %s\n" % l for l in body) + "    return %s\n\n" % tail_expr + "\n".join(bind) + "\nprint(lookup(cursor, name, phone, other))\n"
     else:
-        src = PRELUDE + "\n".join(bind) + "\n" + "\n".join(body) + "\nprint(rows)\n"
+        src = PRELUDE + "\n".join(bind) + "\n" + "\n".join(body) + "\nprint(%s)\n" % tail_expr
     return src
 
 
@@ -105,10 +110,10 @@ def observe(code, vals):
         return (type(e).__name__, out.getvalue())
 
 
-def check(style, nparams, split, scope, var):
+def check(style, nparams, split, scope, var, carry=0):
     from tv import driver
 
-    src = build(style, nparams, split, scope, var)
+    src = build(style, nparams, split, scope, var, carry)
     with NoTracing():
         out, _n = driver.run_pipeline(_reg()["pixee:python/sql-parameterization"], src)
         if out == src:
